@@ -1030,6 +1030,24 @@ def oracle(case):
                 msgs.append(f"print[{d['style']}]: str_to_tree(print_tree(t)) differs from t: {b} != {a}")
         except Exception as e:
             msgs.append(f"print[{d['style']}]: str_to_tree raised {type(e).__name__}: {e}")
+        # the requested attribute values of the tree as it is NOW: printed twice with an attribute update in between
+        # (names, shape and order untouched), every line must end with the value current at that moment
+        import bigtree
+        sub = list(bigtree.preorder_iter(start))
+        try:
+            for stamp in (1, 2):
+                for n in sub:
+                    n.set_attrs({"zz9": stamp})
+                buf = io.StringIO()
+                with contextlib.redirect_stdout(buf):
+                    bigtree.print_tree(start, attr_list=["zz9"], style=d["style"])
+                bad = [ln for ln in buf.getvalue().splitlines() if not ln.endswith("[zz9=%d]" % stamp)]
+                if bad or len(buf.getvalue().splitlines()) != len(sub):
+                    msgs.append(f"print[{d['style']}] with attr_list: after the attribute was set to {stamp} a printed line reads {bad[:1]}")
+                    break
+        finally:
+            for n in sub:
+                n.__dict__.pop("zz9", None)
     return msgs
 
 
